@@ -16,8 +16,11 @@ together with the state of the harness-owned random source.  Then
  (P) periodic dumps: SetSaveFrequency(f, file), f in {1,2,3}; the file *as it exists after step k* (every k)
      restored by LoadSolver and by dill.load with the random state of the moment the file last changed; the
      restored run is aligned with the uninterrupted one by its generation count and must be bit-identical
-     after every further Step.  (The dump itself may be taken inside an iteration, so the state AT restore is
-     only classified, not judged.)  The run with periodic dumps must equal the run without.
+     after every further Step, and its step-monitor contents must also be those of the uninterrupted run at equal
+     EVALUATION count.  The state AT restore is judged when generation and evaluation count both name a boundary
+     (they must name the same one, and the observables must be that boundary's); only a dump whose evaluation
+     count matches no boundary (taken inside an iteration) is merely classified.  The run with periodic dumps must
+     equal the run without.
  (D) restore of a restore: two crash points k1 < k2 (all pairs), chains of two transfers.
  (Z) configurations with limits: after the restore both original and copy run Solve() to the stop and must agree.
  (L) LoggingMonitor configurations: the original dies at k, one restored solver continues; the record lines of the
@@ -27,6 +30,9 @@ together with the state of the harness-owned random source.  Then
      limit k, SaveSolver/LoadSolver or dill, SetEvaluationLimits(N), bare Solve() - or bare Step()s - must end in the
      canonical state of the uninterrupted run (step-monitor record sequence included); likewise from every restart file
      SetSaveFrequency(1) wrote during that uninterrupted Solve (captured from the callback = what a crash leaves behind).
+ (M) DE2 with a picklable dill-copying map (SetMapper(CopyingMap())): the cost runs outside the solver's own wrapper and
+     the solver settles its counter itself; single crash points, periodic files and an evaluation limit (one
+     generation more or less shows as a different stop).  Real calls are counted per object by the map instance.
  (H) histories: two configurations reconfigure the run between two Steps (SetPenalty + new evaluation / generation
      monitors; SetStrictRanges + SetEvaluationLimits(new=True)), so crash points also fall on a solver whose
      objective is not live and whose monitors were swapped; the same reconfiguration is applied to whichever
@@ -62,14 +68,19 @@ CONFIGS = {
     'reconf_pen_mon': {'evalmon': 'Monitor', 'midrun': {'at': 3, 'ops': [['SetPenalty', 'ramp'], ['SetEvaluationMonitor', 'Monitor'], ['SetGenerationMonitor', 'Monitor']]}},
     'reconf_box_lim': {'constraint': 'clamp/pure', 'midrun': {'at': 2, 'ops': [['SetStrictRanges', 'unit', True, None], ['SetEvaluationLimits', 3, None, True]]}},
     'reducer': {'cost': 'vec', 'reducer': 'sum', 'penalty': 'ramp'},
+    # DE2 only: the cost is evaluated through a copying map, so the solver settles its counter itself after the map call
+    'map': {'mapper': 'copying'},
+    'map_limit_eval': {'mapper': 'copying', 'limits': [None, 20]},
+    'map_box_monitors': {'mapper': 'copying', 'box': 'unit', 'evalmon': 'Monitor', 'stepmon': 'Monitor'},
 }
+MAP_CONFIGS = ('map', 'map_limit_eval', 'map_box_monitors')
 QUICK_PLAN = [('plain', 'sphere'), ('plain', 'rosen'), ('box_con_pen', 'steps'),
               ('tight', 'sphere'), ('clip', 'sphere'), ('clip_random', 'sphere'),
               ('monitors', 'sphere'), ('logging', 'sphere'), ('limit_gen', 'sphere'), ('limit_eval', 'sphere'),
               ('reconf_pen_mon', 'sphere'), ('reconf_box_lim', 'sphere')]
 THOROUGH_COSTS = ['sphere', 'steps', 'rosen', 'absum', 'infwall']
 THOROUGH_CORE = ('plain', 'box_con_pen', 'monitors', 'limit_gen')     # 5 / 5 / 3 / 3 costs, all 7 double chains; the rest: 1-2 costs, 3 chains
-THOROUGH_TWO_COSTS = ('tight', 'clip', 'clip_random', 'symbolic', 'box_con_pen_inplace', 'limit_eval')
+THOROUGH_TWO_COSTS = ('tight', 'clip', 'clip_random', 'symbolic', 'box_con_pen_inplace', 'limit_eval') + MAP_CONFIGS
 
 SINGLE = ['dill.dumps/dill.loads', 'dill.copy', 'copy.deepcopy', 'SaveSolver/LoadSolver', 'SaveSolver/dill.load']
 SINGLE_THOROUGH = ['SaveSolver()/LoadSolver(_state=)'] + SINGLE     # file name chosen by the solver, restored by keyword
@@ -89,6 +100,31 @@ STARTS = {'rosen': {2: [-1.2, 1.0], 3: [-1.2, 1.0, 0.7]}}
 
 class HarnessFault(Exception):
     pass
+
+
+class CopyingMap(object):
+    """deterministic stand-in for a process pool: the decorated cost and every work item are dill-copied before the
+    call and the results are copied back, so the cost is evaluated OUTSIDE the solver's own wrapper (its counter
+    cell never moves; DE2 has to settle `_fcalls` itself).  An instance is pickled with the solver, so every restored
+    solver owns its map and `calls` counts the real cost calls made on behalf of that object."""
+
+    def __init__(self):
+        self.calls = 0
+        self.items = 0
+
+    def __call__(self, f, *args, **kwds):
+        import dill
+        g = dill.copy(f)
+        w = cn.Walker()
+        w.walk(g, 'g')
+        recs = [r for _, r in w.recorders]
+        n0 = sum(len(r.log) for r in recs)
+        out = []
+        for a in zip(*args):
+            out.append(dill.copy(g(*dill.copy(a))))
+            self.items += 1
+        self.calls += sum(len(r.log) for r in recs) - n0
+        return out
 
 
 def make_cfg(solver, confname, cost, dim, seed):
@@ -115,7 +151,7 @@ class Bench(object):
 
     def __init__(self, cfg, n, tmp):
         self.cfg = dict(cfg)
-        self.labcfg = {k: v for k, v in cfg.items() if k not in ('conf', 'midrun')}
+        self.labcfg = {k: v for k, v in cfg.items() if k not in ('conf', 'midrun', 'mapper')}
         mid = cfg.get('midrun')
         self.midrun = {int(mid['at']): mid['ops']} if mid else {}
         self.n = n
@@ -140,7 +176,10 @@ class Bench(object):
 
     # .................................................. plumbing
     def lab(self):
-        return solverlab.Lab(self.labcfg, self.tmp)
+        lab = solverlab.Lab(self.labcfg, self.tmp)
+        if self.cfg.get('mapper') == 'copying':
+            lab.solver.SetMapper(CopyingMap())
+        return lab
 
     def advance(self, lab, X, i):
         """take the Step that reaches boundary i, then the reconfiguration scheduled at that boundary (if any)"""
@@ -218,7 +257,7 @@ class Bench(object):
         raise KeyError(name)
 
     # .................................................. the confluence oracle
-    def follow(self, lab, X, start, rng_state, ref=None, msgs=None, account=True):
+    def follow(self, lab, X, start, rng_state, ref=None, msgs=None, account=True, by_evals=False):
         """advance X from boundary `start` to n with the crash-point random state reinstated.
         -> (problems, progressed) ; problems = [(clause, what, detail)] (first divergence only, plus accounting)"""
         ref = self.ref if ref is None else ref
@@ -248,6 +287,15 @@ class Bench(object):
                 problems.append(('evaluations_not_own_calls', 'observable',
                                  'after %d Step(s) beyond boundary %d this object made %d real cost calls but its '
                                  '`evaluations` grew by %d (%d -> %d)' % (s, start, c1 - c0, e1 - e0, e0, e1)))
+            if by_evals and not any(p[0] == 'stepmon_differs_at_equal_evaluations' for p in problems):
+                # second alignment, independent of the generation counter: wherever the uninterrupted run has made
+                # exactly as many evaluations, its step-monitor contents must be the ones seen here
+                same = [i for i in range(len(ref)) if ref[i]['#evaluations'] == f['#evaluations']]
+                if same and not any(ref[i]['#stepmon'] == f['#stepmon'] and ref[i]['#generations'] == f['#generations'] for i in same):
+                    i = same[-1]
+                    problems.append(('stepmon_differs_at_equal_evaluations', 'observable',
+                                     '%d Step(s) after the restore: %s evaluations made = uninterrupted boundary %d, but generations %s vs %s and the step monitor holds %d records vs %d'
+                                     % (s, f['#evaluations'][1], i, f['#generations'][1], ref[i]['#generations'][1], len(f['#stepmon'][1]), len(ref[i]['#stepmon'][1]))))
             d = cn.diff(f, ref[start + s])
             if msg != msgs[start + s]:
                 d.append('#Step_message')
@@ -274,13 +322,17 @@ class CallMeter(object):
     def __init__(self, X):
         self.X = X
         self.seen = {}      # id -> (recorder, length at first sight)
+        self.maps = {}      # id -> (CopyingMap, calls at first sight)
         self.calls()
 
     def calls(self, recorders=None):
         for r in (cn.recorders_of(self.X) if recorders is None else recorders):
             if id(r) not in self.seen:
                 self.seen[id(r)] = (r, len(r.log))
-        return sum(len(r.log) - n0 for r, n0 in self.seen.values())
+        m = self.X.__dict__.get('_map')
+        if isinstance(m, CopyingMap) and id(m) not in self.maps:
+            self.maps[id(m)] = (m, m.calls)
+        return sum(len(r.log) - n0 for r, n0 in self.seen.values()) + sum(m.calls - n0 for m, n0 in self.maps.values())
 
 
 def _what(d):
@@ -568,11 +620,23 @@ def run_periodic(b, f, restores, T, only_j=None):
                 sink.emit('periodic', name, 'restored_generation_count_unknown', 'observable',
                           'the dump of step %d restores to generations=%r, which no boundary <= %d of the run had' % (j, g, j), case)
                 continue
-            m0 = cands[-1]
+            byev = [i for i in range(j + 1) if pref[i]['#evaluations'] == fR['#evaluations']]
+            both = sorted(set(cands) & set(byev))
+            if byev and not both:
+                problems.append(('periodic_dump_inconsistent', 'observable',
+                                 'the restored counters disagree about which boundary the file is: generations=%s is boundary %s of the run, evaluations=%s is boundary %s'
+                                 % (g[1], cands, fR['#evaluations'][1], byev)))
+            m0 = both[-1] if both else cands[-1]
             d0 = cn.diff(fR, pref[m0])
+            if both and d0 and _what(d0) == 'observable':
+                # generation AND evaluation count say "boundary m0": then it is not a dump from inside an iteration
+                # and what the statement names must be what the run had there
+                od = [x for x in d0 if x in cn.OBSERVABLE]
+                problems.append(('restored_state_differs', 'observable', 'by both counters the file is boundary %d, but %s differ: %s'
+                                 % (m0, od, '; '.join(cn.explain(fR, pref[m0], x, 160) for x in od[:3]))))
             T.hist('periodic_dump_state', 'equals boundary state (whole form)' if not d0 else
                    ('equals boundary state in observables; lazily resolved internals differ' if _what(d0) == 'internal' else 'taken inside an iteration'))
-            more, progressed = b.follow(lab2, R, m0, rngs[j], ref=pref, msgs=msgs)
+            more, progressed = b.follow(lab2, R, m0, rngs[j], ref=pref, msgs=msgs, by_evals=True)
             T.count('transitions', b.n - m0)
             problems += more
             if progressed:
@@ -967,10 +1031,15 @@ def plan_of(ctx):
         for solver in solverlab.SOLVERS:
             for conf, cost in QUICK_PLAN:
                 items.append((make_cfg(solver, conf, cost, 2, ctx.seed), n, plan))
+        nodouble = dict(plan, double={})         # (a copying map makes every Step ~10 ms dearer)
+        for conf in ('map', 'map_limit_eval'):
+            items.append((make_cfg('DE2', conf, 'sphere', 2, ctx.seed), n, nodouble))
     else:
         lean = dict(plan, double=DOUBLE_QUICK)
         for solver in solverlab.SOLVERS:
             for conf in CONFIGS:
+                if conf in MAP_CONFIGS and solver != 'DE2':
+                    continue
                 core = conf in THOROUGH_CORE
                 costs = ['vec'] if conf == 'reducer' else (THOROUGH_COSTS if conf in ('plain', 'box_con_pen') else
                                                          (THOROUGH_COSTS[:3] if core else (['sphere', 'rosen'] if conf in THOROUGH_TWO_COSTS else ['sphere'])))
